@@ -344,9 +344,79 @@ def run_case(kind, p):
     return msgs[:6]
 
 
+def documented_fom(a, b, elev_sum):
+    """the figure of merit of the docstring of _find_best_vector_match, written out: (sum of elevations)^2 * |sin angle| *
+    |a||b| / (|a|^2 + |b|^2)"""
+    a, b = np.asarray(a, dtype=np.float64), np.asarray(b, dtype=np.float64)
+    return float(elev_sum) ** 2 * abs(a[0] * b[1] - a[1] * b[0]) / (a @ a + b @ b)
+
+
+def classify(kind, p, msgs):
+    """known finding D20: the documented figure of merit (points^2 x orthogonality x equal length) ranks a SUBLATTICE basis (2a, b)
+    above the full lattice when a is much shorter than b and the peaks of the even columns carry most of the elevation.  Keyed to
+    the cause: the only failure is the first-match clause, the first match is an exact (error ~ 0) lattice through a proper subset
+    of the points, and its documented figure of merit is at least that of every reduced basis of the full lattice over all
+    points -- i.e. the ranking did what it is documented to do."""
+    if kind != "cloud" or p.get("kind") != "clean" or p.get("centers_dtype") or len(msgs) != 1 \
+            or not msgs[0].startswith("noise-free lattice of"):
+        return None
+    pts, elev = np.asarray(p["pts"], dtype=np.float64), np.asarray(p["elev"], dtype=np.float64)
+    with warnings.catch_warnings():
+        warnings.simplefilter("ignore")
+        try:
+            matches, _, _ = matcher_of(p).full_match(centers=pts, zero=np.asarray(p["zero"]), cand=p["cand"], refineds=pts,
+                                                     peak_values=np.ones(len(pts)), peak_elevations=elev)
+        except Exception:      # noqa: BLE001
+            return None
+    if not matches:
+        return None
+    mt = matches[0]
+    if mt.selector.all() or not mt.error < 1e-6:
+        return None
+    a, b = np.asarray(p["true_a"], dtype=np.float64), np.asarray(p["true_b"], dtype=np.float64)
+    full = max(documented_fom(u, v, elev.sum()) for u, v in ((a, b), (a, b + a), (a, b - a), (a + b, b), (a - b, b)))
+    got = documented_fom(mt.a, mt.b, elev[mt.selector].sum())
+    return "D20" if got >= full * (1 - 1e-9) else None
+
+
+def unequal_lattice(rng, k, uniform):
+    """a complete noise-free block of a lattice whose vectors differ in length by a factor 2.5 .. 7: three columns along the short
+    vector with the zero point on the border column, or five columns with the zero point in the middle"""
+    lb = float(rng.uniform(30, 50))
+    ratio = float(rng.uniform(0.15, 0.4))
+    phi = float(rng.uniform(0, 2 * np.pi))
+    psi = phi + np.pi / 2 + float(rng.uniform(-0.2, 0.2))
+    a = lb * ratio * np.array([np.sin(phi), np.cos(phi)])
+    b = lb * np.array([np.sin(psi), np.cos(psi)])
+    ii, jj = [((0, 1, 2), (-1, 0, 1)), ((-2, -1, 0, 1, 2), (0, 1)), ((0, -1, -2), (0, 1, 2))][k % 3]
+    swap = (k // 3) % 2 == 1
+    if swap:
+        a, b = b, a
+    idx = [((j, i) if swap else (i, j)) for i in ii for j in jj if (i, j) != (0, 0)]
+    z = rng.uniform(100, 120, 2)
+    pts = np.array([z] + [z + i * a + j * b for i, j in idx])
+    elev = np.ones(len(pts)) if uniform else rng.uniform(0.5, 3, len(pts))
+    return {"pts": pts, "elev": elev, "zero": z, "kind": "clean", "true_a": a, "true_b": b, "tolerance": 2.0, "min_match": 3,
+            "min_angle": float(np.pi / 10), "min_delta": 0.0, "max_delta": float("inf"), "min_points": int(rng.choice([10, 100])),
+            "cand": None}
+
+
 def search(ctx, boost=1, focus=()):
     rng = np.random.default_rng(ctx.seed + 1012)
     n = (250 if ctx.tier == "thorough" else 50) * boost
+    # known finding D20, pinned: |a| = 0.2 |b|, three columns along a, elevations heavy on the even columns
+    z_, a_, b_ = np.array([110.0, 105.0]), np.array([7.0, 2.0]), np.array([-9.0, 33.0])
+    p = {"pts": np.array([z_ + i * a_ + j * b_ for i in (0, 1, 2) for j in (0, -1, 1)]), "zero": z_, "kind": "clean",
+         "elev": np.array([3.0, 2.8, 2.9, 0.5, 0.6, 0.5, 2.7, 2.9, 3.0]), "true_a": a_, "true_b": b_, "tolerance": 2.0, "min_match": 3,
+         "min_angle": float(np.pi / 10), "min_delta": 0.0, "max_delta": float("inf"), "min_points": 10, "cand": None}
+    msgs = run_case("cloud", p)
+    ctx.oracle_case("cloud", p, msgs, key=classify("cloud", p, msgs) if msgs else None, nontrivial=True)
+    # lattices with vectors of very different length: uniform elevations, and elevations 0.5 .. 3 as for the other clean lattices
+    for k in range((60 if ctx.tier == "thorough" else 16) * boost):
+        p = unequal_lattice(rng, k, uniform=(k // 6) % 2 == 0)
+        msgs = run_case("cloud", p)
+        ctx.oracle_case("cloud", p, msgs, key=classify("cloud", p, msgs) if msgs else None, nontrivial=True)
+        ctx.count("oracle_unequal_lengths")
     for k in range(n):
         p = gen(rng, k)
         ctx.oracle_case("cloud", p, run_case("cloud", p), nontrivial=p["kind"] != "clean")
